@@ -52,6 +52,12 @@ FACT2 = {D: [f for f in itertools.product(range(1, 7), repeat=2) if f[0] * f[1] 
 @st.composite
 def supermatrices(draw, d):
     """integer d x d matrix with |det| in 2..6: column Hermite normal form (all superlattices of that index) times a unimodular matrix"""
+    if draw(st.booleans()):
+        # dense presentation: every entry drawn from -2..2 (the cell reduction starts from the basis it is given, so how oblique the
+        # presentation is matters as much as which superlattice it spans)
+        M = draw(st.lists(st.lists(st.integers(-2, 2), min_size=d, max_size=d), min_size=d, max_size=d)
+                 .filter(lambda m: 2 <= abs(int(round(np.linalg.det(np.array(m))))) <= 6))
+        return M
     D = draw(st.sampled_from([2, 3, 4, 4, 5, 6, 6]))
     f = draw(st.sampled_from(FACT3[D] if d == 3 else FACT2[D]))
     H = np.zeros((d, d), dtype=int)
@@ -75,7 +81,16 @@ def supermatrices(draw, d):
 
 @st.composite
 def cases(draw):
-    rec = draw(cs.recipes(max_species=3, max_mobile=4, max_other=3))
+    if draw(st.integers(0, 3)) == 0:
+        # hexagonal family with c > a and c < a: the reduction of an oblique supercell can end on a3 = c +- a1 +- a2, where every
+        # pairwise projection is exactly 1/2 and only the three-vector step of minlattice makes progress (R14b)
+        rec = dict(draw(st.sampled_from(cs.catalogue(["HCP", "HCPoct", "omega", "romega"]))))
+        f = draw(st.sampled_from([1.0, 1.0, 0.8, 1.25, 1.7]))
+        L = np.array(rec["lattice"], dtype=float)
+        L[:, 2] = L[:, 2] * f
+        rec["lattice"] = L.tolist()
+    else:
+        rec = draw(cs.recipes(max_species=3, max_mobile=4, max_other=3))
     d = len(rec["lattice"])
     return {"recipe": {"name": rec["name"], "lattice": rec["lattice"], "basis": rec["basis"]},
             "M": draw(supermatrices(d)),
@@ -300,6 +315,25 @@ def run(ctx):
             cat.append({"recipe": {"name": r["name"], "lattice": r["lattice"], "basis": r["basis"]}, "M": [row[:d] for row in M3[:d]],
                         "order": [0] * NKEYS, "shift": [0.] * d, "noise": [0] * NKEYS})
     ctx.cases([c for i, c in enumerate(cat) if ctx.mine(i)], fn, label="catalogue")
+    # hexagonal family x dense presentations: Hypothesis re-uses most of a previous example when it draws the next one, so the number
+    # of DISTINCT supercell matrices per run is small; this family enumerates matrices from a PRNG that is a pure function of
+    # VERIF_SEED (entries -2..2, |det| 2..6), for lattices where the reduction has to take the three-vector step (R14b).
+    rng = np.random.default_rng(1000 + ctx.seed)
+    hexfam = []
+    per = 10 if ctx.quick else 120
+    for r in cs.catalogue(["HCP", "HCPoct", "omega", "romega"]):
+        for f in (1.0, 1.25, 0.8):
+            L = np.array(r["lattice"], dtype=float)
+            L[:, 2] *= f
+            got = 0
+            while got < per:
+                M = rng.integers(-2, 3, size=(3, 3))
+                if not 2 <= abs(int(round(np.linalg.det(M)))) <= 6:
+                    continue
+                got += 1
+                hexfam.append({"recipe": {"name": r["name"], "lattice": L.tolist(), "basis": r["basis"]}, "M": M.tolist(),
+                               "order": [int(x) for x in rng.integers(0, 1000, size=NKEYS)], "shift": [0.] * 3, "noise": [0] * NKEYS})
+    ctx.cases([c for i, c in enumerate(hexfam) if ctx.mine(i)], fn, label="hexagonal_dense")
     ctx.given(cases(), fn, quick=200, thorough=9000)
 
 
